@@ -22,7 +22,70 @@ void parse_opts(int argc, char **argv)
         else if (!strcmp(argv[i], "--sub") && i + 1 < argc) g_opts.sub = argv[++i];
         else if (!strcmp(argv[i], "--label") && i + 1 < argc) g_opts.label = argv[++i];
         else if (!strcmp(argv[i], "--maxbe") && i + 1 < argc) g_opts.maxbe = atoi(argv[++i]);
+        else if (!strcmp(argv[i], "--paint") && i + 1 < argc) g_paint = atoi(argv[++i]);
         else { fprintf(stderr, "unknown option %s\n", argv[i]); exit(EXIT_ENGINE); }
+    }
+}
+
+int g_paint = -1;
+uint64_t g_out_sum;
+
+#if defined(__has_feature)
+#if __has_feature(memory_sanitizer)
+#include <sanitizer/msan_interface.h>
+#define VERIF_MSAN 1
+#endif
+#endif
+
+static struct { const char *tag; uint64_t sum, n; } tagsums[48]; static int n_tagsums;
+
+void __attribute__((noinline)) verif_paint_stack(void)
+{
+    volatile uint8_t area[6144];
+    size_t i;
+    if (g_paint < 0) return;
+    for (i = 0; i < sizeof(area); ++i) area[i] = (uint8_t)g_paint;
+#ifdef VERIF_MSAN
+    __msan_poison((const void *)area, sizeof(area));
+#endif
+}
+
+void verif_paint_obj(void *p, size_t n)
+{
+    memset(p, g_paint < 0 ? 0xA5 : g_paint, n);
+#ifdef VERIF_MSAN
+    __msan_poison(p, n);
+#endif
+}
+
+void verif_unpoison(void *p, size_t n)
+{
+#ifdef VERIF_MSAN
+    __msan_unpoison(p, n);
+#else
+    (void)p; (void)n;
+#endif
+}
+
+void out_digest(const char *tag, const void *out, size_t n)
+{
+#ifdef VERIF_MSAN
+    /* explicit shadow test: nothing the API defines may be computed from uninitialised memory */
+    intptr_t off = __msan_test_shadow(out, n);
+    if (off >= 0) {
+        char sig[200];
+        snprintf(sig, sizeof(sig), "C11/uninitialised-output/%s", tag);
+        violation(sig, "", "byte %ld of a %zu-byte result (%s) is computed from uninitialised memory (MemorySanitizer shadow)", (long)off, n, tag);
+        __msan_unpoison(out, n);
+    }
+#endif
+    {
+        uint64_t h = fnv1a(out, n, fnv1a(tag, strlen(tag), FNV_INIT)) | 1;
+        int i;
+        g_out_sum += h;
+        for (i = 0; i < n_tagsums; ++i) if (tagsums[i].tag == tag || !strcmp(tagsums[i].tag, tag)) break;
+        if (i == n_tagsums && n_tagsums < 48) { tagsums[n_tagsums].tag = tag; tagsums[n_tagsums].sum = 0; tagsums[n_tagsums].n = 0; ++n_tagsums; }
+        if (i < n_tagsums) { tagsums[i].sum += h; ++tagsums[i].n; }
     }
 }
 
@@ -199,6 +262,9 @@ int finish(void)
             (unsigned long long)g_cnt.evaluations, (unsigned long long)distinct_count(),
             (unsigned long long)g_cnt.states, (unsigned long long)g_cnt.transitions,
             (unsigned long long)g_cnt.traces, (unsigned long long)g_cnt.violations);
+    fprintf(f, ",\"out_sum\":\"%016llx\",\"out_sums\":{", (unsigned long long)g_out_sum);
+    for (i = 0; i < n_tagsums; ++i) fprintf(f, "%s\"%s\":[\"%016llx\",%llu]", i ? "," : "", tagsums[i].tag, (unsigned long long)tagsums[i].sum, (unsigned long long)tagsums[i].n);
+    fprintf(f, "}");
     fprintf(f, ",\"samples\":[");
     for (i = 0; i < nsamples; ++i) { if (i) fputc(',', f); json_str(f, samples[i]); }
     fprintf(f, "],\"notes\":{");
